@@ -125,6 +125,11 @@ var corpus = []string{
 	`(prog (fdecl f (params (rest a)) (var a 1) (return a)) (expr (call log (call f))))`,
 	`(prog (fdecl f (params (def a a)) (return ([] arguments 0))) (expr (call log (call f 1))))`,
 	`(prog (classdecl B _ (method m (params) (return 1))) (classdecl A B (field f (superdot m))) (expr (call log (typeof (. (new A) f)))))`,
+	`(prog (fdecl g (params a (rest r)) (return (arr (call (func _ (params) (return a))) r))) (expr (call log (call g 1 2))))`,
+	`(prog (fdecl h (params) (directive "use strict") (return (call (arrowe (params) (typeof arguments))))) (expr (call log (call h 5))))`,
+	`(prog (var n 0) (while (< (post++ n) 1) (block (expr 1) (block (break)) (expr 2))))`,
+	`(prog (label L (try (block (expr 1)) _ (finally (block (break L))))))`,
+	`(prog (label L1 (label L2 (for (var i 0) (< i 2) (post++ i) (block (expr (call log i)) (continue L1))))))`,
 	// ---- anchors: scopes, closures, TDZ ----
 	`(prog (const a 1) (expr (call log (call (arrowe (params) (call (arrowe (params) a)))))))`,
 	`(prog (let a 1) (var f (arrowe (params) a)) (expr (= a 2)) (expr (call log (call f))))`,
